@@ -24,6 +24,29 @@ CLAIMED = {
    text="Eleven theorems over ARBITRARY bytes for the frame reader: never panics, Ok results are a correct reading of exactly 9+len consumed bytes within the limit, unknown types skipped whole, over-size refused before allocation, impossible fixed sizes/padding never returned, every strict prefix is an error, pool event log linear on every path, frame streams read back frame by frame. The HPACK half (no panic, progress, output bound for arbitrary bytes) is C03's next_field theorems. Correspondence: ~130k inputs (all prefixes of valid streams, all type/flag bytes, soups) incl. the pool tracker's verdict.",
    note=TB + "Modelled not verified: Go semantics; sync.Pool as an event log with an ownership automaton (Impl/Pools.v); allocation = requested buffer size."),
 }
+
+SRV = ("Modelled not verified: Go semantics of serverConn.go/stream.go/streams.go (hand translation: one Gallina function per Go function; each loop iteration / critical section an atomic step; channels as unbounded FIFO queues = a superset of the real schedules); fasthttp, bufio, net.Conn, timers' real time, the Go scheduler and memory model are outside the model. The model is tied to the code by the lockstep run: the real Server.ServeConn against a scripted peer, quiescence by hook counters, frames / dispatches / gauges (table, slots, ring, both connection windows) compared per event with the extracted model; schedules include the stream loop held at a tick gate while the read loop runs ahead. ")
+CLAIMED.update({
+ "C06": dict(design="6/C06", technique="Coq proof (invariant over all event lists: peer-side window ledger, no-stall, END_STREAM once) + lockstep correspondence + ledger oracle on the observed trace",
+   text="Ten theorems over ALL event lists of the server model: every DATA frame fits the peer's connection and stream window at the moment it is queued (ledger of Spec/FlowLedger.v over the grants the stream loop has applied, which is also where SETTINGS are acknowledged), totals form, payload <= 16384, SETTINGS ACK is the first output of the applying step, at most one END_STREAM per stream and nothing after it, no-stall (a waiting response never has both windows positive), sendData sends exactly min(left, windows) and finishes iff nothing is left, a stream grant resumes a blocked body. Partial: completion is proved per step/grant for buffered bodies, not as one whole-run theorem in terms of the peer's ledger totals.",
+   note=TB + SRV + "C06 safety counted at the read loop is false by RFC 6.9.2 while a lowering SETTINGS is in flight (C06_read_loop_order_counterexample); the statement counts grants where they are applied and acknowledged."),
+ "C13": dict(design="6/C13", technique="Coq proof (structural invariants closed under ~25 primitive moves, all event lists) + lockstep correspondence incl. gauges + gauge oracle",
+   text="Thirteen theorems over ALL event lists: running handlers <= open slots <= MaxConcurrentStreams (a cancelled stream keeps its slot until its handler returns), slots = HEADERS-opened table streams + abandoned streams, closed-stream ring <= 256, table length <= slots + 1, every dispatched request within MaxRequestBodySize and MaxHeaderListSize, buffered header bytes (per stream and for discarded blocks) within the header-list limit while the loop runs.",
+   note=TB + SRV + "Not covered (stated in Props/C13.v): queue capacities — the model's queues are unbounded, the Go channels block at 128."),
+ "C10": dict(design="6/C10", technique="Coq proof (GOAWAY last-stream-id invariant over all event lists and schedules) + lockstep correspondence incl. gated schedules + oracle; termination half partial",
+   text="Seven theorems over ALL event lists: every GOAWAY (also one queued after the stream loop ended) carries last-stream-id >= every stream dispatched anywhere in the trace; the connection is closing from then on, lastID is frozen and no new HEADERS-opened stream appears; GOAWAY codes are the RFC's for the emitting site; the stream loop returns once the reader is closed and drained. PARTIAL: 'returns within a bounded time even if the peer keeps sending or stops reading' is about blocking and real time, which this model cannot exhibit (Impl/Teardown.v covers the blocking structure).",
+   note=TB + SRV),
+ "C17": dict(design="6/C17", technique="Coq proof (no panic item in any trace, ownership automaton of request contexts) + lockstep correspondence (logger output, ServeConn return, pool tracker); goroutine-leak half partial",
+   text="Seven theorems over ALL event lists: no panic item in any trace (for the instance: discharged by C03's next_field_no_panic), the per-stream ownership automaton Owned -> Lent -> Returned -> InPool never goes wrong: a request context is never released while its handler runs, released at most once, never dispatched after release, dispatched once. PARTIAL: 'returns once the peer is gone, leaves no goroutine behind' is runtime behaviour: the harness observes ServeConn returning in every scenario, the blocking structure is Impl/Teardown.v.",
+   note=TB + SRV),
+ "C19": dict(design="6/C19", technique="Coq proof (ownership automaton + frame conditions per loop) + lockstep correspondence with the pool tracker + the same scenarios under the Go race detector",
+   text="Eight theorems: the ownership automaton over pooled streams/contexts; frame conditions: the read loop leaves all 19 stream-loop-owned components unchanged (it only sets the shared closing flag, under goAwayMu), the stream loop leaves the read loop's components alone and only takes the head of the reader queue. PARTIAL: the data-race half is about the Go memory model, which no Gallina model can exhibit; as supporting validation the lockstep scenarios run under the race detector on every check (60 quick / 1500 thorough), and a report is a violation.",
+   note=TB + SRV + "Client role: the pool tracker runs in the client suite too; client frame conditions are not proved."),
+ "C14": dict(design="6/C14", technique="Coq proof (receive-window invariant, credit accounting, peer-view bound; both roles) + lockstep correspondence + increment oracle",
+   text="Server role, five theorems over ALL event lists: every WINDOW_UPDATE increment is in 1..2^31-1; maxWindow/2 <= receive window <= maxWindow always; exactly which DATA frames are debited (full wire length, padding included): all accepted or discarded ones, the rest end the connection; the peer's connection window is >= maxWindow/2 once the stream loop has caught up; an accepted DATA frame without END_STREAM is credited to its stream in the same step. Client role: theorems in Props/C14_client.v (see evidence), correspondence on the client suite.",
+   note=TB + SRV + "The handshake's WINDOW_UPDATE is outside the model (the peer's connection window starts at maxWindow)."),
+})
+
 NA_REASON = "check not built yet in this commit (planned, DESIGN.md section 6); nothing is claimed until its theorems and correspondence run exist"
 
 hooks = subprocess.check_output(["git","-C","/repo","log","--format=%h %s"]).decode().split("\n")
